@@ -3,6 +3,7 @@ package main
 import (
 	"fmt"
 	"go/types"
+	"sort"
 	"strings"
 
 	"golang.org/x/tools/go/ssa"
@@ -63,7 +64,13 @@ func (fr *Frame) doCall(ins *ssa.Call, c *ssa.CallCommon, st *State) []Val {
 	if fv.fn != nil {
 		return fr.callStatic(ins, fv.fn, nil, args, st)
 	}
-	// call through a function value
+	// call through a function value: known closures are inlined under the condition that the value is theirs
+	if fv.t != "" && len(ex.closures) > 0 {
+		if cl, ok := ex.closures[fv.t]; ok {
+			return fr.callStatic(ins, cl.fn, cl.bindings, args, st)
+		}
+		return fr.callDynamic(ins, c, fv, args, st)
+	}
 	if ld, ok := c.Value.(*ssa.UnOp); ok {
 		if g, ok := ld.X.(*ssa.Global); ok && isLogSink(g) {
 			ex.vc.note("call through package variable %s.%s treated as an effect-free logging sink", g.Pkg.Pkg.Name(), g.Name())
@@ -568,3 +575,59 @@ func splitPack(sig *types.Signature, vals []Val, as []TVal) ([]TVal, *[]string) 
 	els := append([]string{}, last.elems...)
 	return as[:len(as)-1], &els
 }
+
+// callDynamic: case split over the closures created in this unit, plus the unknown-callback case.
+func (fr *Frame) callDynamic(ins *ssa.Call, c *ssa.CallCommon, fv Val, args []Val, st *State) []Val {
+	ex := fr.ex
+	type branch struct {
+		st   *State
+		vals []Val
+	}
+	var brs []branch
+	var ids []string
+	for id := range ex.closures {
+		ids = append(ids, id)
+	}
+	sortStrings(ids)
+	none := []string{}
+	for _, id := range ids {
+		cl := ex.closures[id]
+		if !types.Identical(cl.fn.Signature.Params(), c.Signature().Params()) || !types.Identical(cl.fn.Signature.Results(), c.Signature().Results()) {
+			continue
+		}
+		none = append(none, not(eq(fv.t, id)))
+		bs := st.clone()
+		bs.pc = ex.vc.define("pc", "Bool", and(st.pc, eq(fv.t, id)))
+		vals := fr.callStatic(ins, cl.fn, cl.bindings, args, bs)
+		if !bs.dead {
+			brs = append(brs, branch{bs, vals})
+		}
+	}
+	os := st.clone()
+	os.pc = ex.vc.define("pc", "Bool", and(append([]string{st.pc}, none...)...))
+	ovals := fr.callCallback(ins, c, fv, args, os)
+	brs = append(brs, branch{os, ovals})
+	var sts []*State
+	var pcs []string
+	for _, b := range brs {
+		sts = append(sts, b.st)
+		pcs = append(pcs, b.st.pc)
+	}
+	merged := ex.mergeStates(sts)
+	if len(sts) == 1 {
+		merged = sts[0]
+	}
+	*st = *merged
+	n := c.Signature().Results().Len()
+	out := make([]Val, n)
+	for i := 0; i < n; i++ {
+		var vals []Val
+		for _, b := range brs {
+			vals = append(vals, b.vals[i])
+		}
+		out[i] = ex.mergeVals(pcs, vals, ex.eng.S.sortOf(c.Signature().Results().At(i).Type()))
+	}
+	return out
+}
+
+func sortStrings(s []string) { sort.Strings(s) }
